@@ -65,7 +65,7 @@ class C06(core.Prop):
     lean_modules = ['TddaVerif.Props.C06']
     theorems = ['TddaVerif.Props.C06.' + t for t in ['detect_verdicts_eq_verify', 'flags_length', 'flag_false_iff_violates',
         'type_failure_flags_all', 'wrong_typed_bound_flags_all', 'maxNulls_flags_nulls', 'noDuplicates_flags',
-        'nFailures_exact', 'counts_partition']]
+        'nFailures_exact', 'counts_partition', 'written_rows_are_positions', 'written_failing', 'failing_written', 'written_sorted']]
     quick_n = 300
     thorough_n = 12000
     rule = ('cases: frames of 1..3 columns x 1..10 rows with a boundary-directed constraint set (as C02, biased so '
@@ -186,7 +186,43 @@ class C06(core.Prop):
                 ops.append({'op': 'cx.detect', 'cfg': cfg, 'col': mc, 'constraints': ks})
         except ValueError:
             return []
+        w = self._written(case)
+        if w is not None:
+            ops.append({'op': 'c06.written', 'nf': w['nf'], 'write_all': bool(case['opts']['write_all'])})
         return ops
+
+    def _written(self, case):
+        """the counts of failures per record (in-memory detection of all records) and the (RowNumber, n_failures) rows of the
+        file the real code writes with a row-number column; None when nothing fails (no file is written then)"""
+        key = json.dumps(case, sort_keys=True, default=str)
+        if getattr(self, '_wk', None) == key:
+            return self._wv
+        self._wk, self._wv = key, None
+        cons = c02.tdda_dict(case['constraints'])
+        epsf = case['eps'][0] / case['eps'][1]
+        d = tempfile.mkdtemp(prefix='c06w_')
+        try:
+            with quiet(), contextlib.redirect_stdout(io.StringIO()):
+                v = detect_df(cx.to_df(case['frame']), cons, epsilon=epsf, repair=False, per_constraint=True,
+                              output_fields=[], write_all=True)
+            det = v.detected()
+            if det is None or not any(int(x) > 0 for x in det['n_failures']):
+                return None
+            nf = [int(x) for x in det['n_failures']]
+            out = os.path.join(d, 'w.csv')
+            with quiet(), contextlib.redirect_stdout(io.StringIO()):
+                detect_df(cx.to_df(case['frame']), cons, epsilon=epsf, repair=False, outpath=out, per_constraint=False,
+                          output_fields=[], write_all=bool(case['opts']['write_all']), index=True, rownumber_is_index=False)
+            rows = None
+            if os.path.exists(out):
+                got = pd.read_csv(out)
+                rows = [[int(a), int(b)] for a, b in zip(got['RowNumber'], got['n_failures'])]
+            self._wv = {'nf': nf, 'rows': rows}
+        except Exception as e:   # noqa
+            self._wv = None          # (an exception of the real code is the oracle's business)
+        finally:
+            shutil.rmtree(d, ignore_errors=True)
+        return self._wv
 
     def _detect_col(self, case, col):
         df = cx.to_df({'cols': [col]})
@@ -222,6 +258,9 @@ class C06(core.Prop):
                     flags.append([None if pd.isnull(x) else bool(x) for x in det[cname]])
             out.append({'verdicts': verdicts, 'flags': flags, 'n_failures': [int(x) for x in det['n_failures']],
                         'n_failing': int(v.detection.n_failing_records), 'n_passing': int(v.detection.n_passing_records)})
+        w = self._written(case)
+        if w is not None:
+            out.append(w['rows'])
         return out
 
     def canon_model(self, case, outs):
@@ -233,7 +272,11 @@ class C06(core.Prop):
             res.append(o['ok'])
         # an implementation exception is the oracle's business
         impl = self.impl_outputs(case)
-        return [i if 'exc' in i else r for r, i in zip(res, impl)]
+        res = [i if 'exc' in i else r for r, i in zip(res, impl)]
+        if len(outs) > len(case['frame']['cols']):
+            o = outs[-1]
+            res.append(o['ok'] if 'ok' in o else {'exc': o.get('exc')})
+        return res
 
     def nontrivial_key(self, case):
         for k, v in case['opts'].items():
@@ -248,6 +291,16 @@ class C06(core.Prop):
         fail = lambda clause, detail, key=None: F.append(core.Failure(clause, case, detail, key or clause))
         eps = Fraction(case['eps'][0], case['eps'][1])
         epsf = case['eps'][0] / case['eps'][1]
+        # the file written with a row-number column: each record under its position in the input (from 1)
+        try:
+            w = self._written(case)
+        except Exception:   # noqa
+            w = None
+        if w is not None and w['rows'] is not None:
+            want_rows = [[i_ + 1, k_] for i_, k_ in enumerate(w['nf']) if case['opts']['write_all'] or k_ > 0]
+            if w['rows'] != want_rows:
+                fail('output-rows', 'RowNumber / n_failures of the rows written %r, positions and counts of the records %r'
+                     % (w['rows'][:6], want_rows[:6]), 'output-rows:row-numbers')
         cons = c02.tdda_dict(case['constraints'])
         o = case['opts']
         d = tempfile.mkdtemp(prefix='c06_')
